@@ -59,6 +59,7 @@ _HOOKS = (
     ("os", "remove", "_unlink"), ("os", "rename", "_rename"), ("os", "replace", "_replace"),
     ("os", "scandir", "_scandir"), ("os", "listdir", "_listdir"), ("os", "truncate", "_truncate"),
     ("os", "link", "_link"), ("os", "symlink", "_symlink"), ("os", "open", "_os_open"),
+    ("os", "write", "_os_write"), ("os", "fsync", "_os_fsync"), ("os", "close", "_os_close"),
     ("uuid", "uuid4", "_uuid4"), ("tempfile", "_get_candidate_names", "_candidate_names"),
 )
 
@@ -114,6 +115,10 @@ _real = {
     "os.truncate": os.truncate,
     "os.link": os.link,
     "os.symlink": os.symlink,
+    "os.write": os.write,
+    "os.fsync": os.fsync,
+    "os.close": os.close,
+    "os.fdopen": os.fdopen,
     "os.open": os.open,
     "uuid.uuid4": uuid.uuid4,
     "tempfile._get_candidate_names": tempfile._get_candidate_names,
@@ -127,6 +132,7 @@ APPLICABLE_ERRNOS = {
     "open": ("ENOSPC", "EACCES", "EMFILE", "EROFS"),
     "write": ("ENOSPC", "EIO", "EDQUOT"),
     "truncate": ("EIO",),
+    "fsync": ("EIO", "ENOSPC"),
     "mkdir": ("ENOSPC", "EACCES"),
     "unlink": ("EACCES", "EPERM", "EBUSY", "EIO"),
     "rmdir": ("EACCES", "EPERM", "EBUSY", "EIO"),
@@ -147,10 +153,13 @@ def scratch_root() -> str:
 class _SimFileIO(io.FileIO):
     """raw file whose mutating calls are gated"""
 
-    def __init__(self, sim, path, mode):
+    def __init__(self, sim, path, mode, fd=None, closefd=True):
         self._sim = None  # gate off while FileIO.__init__ runs
         self._discard = False
-        super().__init__(path, mode)
+        if fd is None:
+            super().__init__(path, mode)
+        else:
+            super().__init__(fd, mode, closefd=closefd)
         self._sim = sim
         self._simpath = path
         sim.open_files.append(self)
@@ -224,6 +233,7 @@ class SimOS:
         self._name_counter = 0
         self._installed = False
         self.open_files = []
+        self.fd_paths = {}  # descriptors from the gated os.open -> path
         self.enabled = True
 
     # -- naming -------------------------------------------------------------
@@ -301,19 +311,30 @@ class SimOS:
     # -- patched entry points -------------------------------------------------
     def _open(self, file, mode="r", buffering=-1, encoding=None, errors=None,
               newline=None, closefd=True, opener=None):
-        if (
+        fd = file if isinstance(file, int) and file in self.fd_paths else None
+        if fd is None and (
             not self.owns(file)
             or opener is not None
             or not any(c in mode for c in "wax+")
         ):
             return _real["io.open"](file, mode, buffering, encoding, errors, newline,
                                     closefd, opener)
-        path = os.path.abspath(os.fspath(file))
         binary = "b" in mode
         rawmode = "".join(c for c in mode if c in "rwax+")
-        # opening for write creates/truncates: a durable effect, so gated
-        self.gate("open", path, rawmode)
-        raw = _SimFileIO(self, path, rawmode)
+        if fd is not None:
+            # a descriptor obtained from the gated os.open (mkstemp, ...): the file
+            # exists already, only the writes through it are gated
+            path = self.fd_paths[fd]
+            if not any(c in mode for c in "wax+"):
+                return _real["io.open"](file, mode, buffering, encoding, errors, newline, closefd, opener)
+            raw = _SimFileIO(self, path, rawmode, fd=fd, closefd=closefd)
+            if closefd:
+                self.fd_paths.pop(fd, None)
+        else:
+            path = os.path.abspath(os.fspath(file))
+            # opening for write creates/truncates: a durable effect, so gated
+            self.gate("open", path, rawmode)
+            raw = _SimFileIO(self, path, rawmode)
         try:
             if buffering == 0:
                 if not binary:
@@ -393,15 +414,45 @@ class SimOS:
         return _real["os.truncate"](path, length)
 
     def _os_open(self, path, flags, mode=0o777, *, dir_fd=None):
-        # low-level opens that could create or truncate inside the sandbox are
-        # not used by the code under test; refuse rather than miss an effect.
+        # low-level opens that can create or truncate inside the sandbox
+        # (tempfile.mkstemp, os.fdopen users): gated, and the descriptor is
+        # remembered so that writes through it are gated too
         if dir_fd is None and self.owns(path) and flags & (
             os.O_WRONLY | os.O_RDWR | os.O_CREAT | os.O_TRUNC | os.O_APPEND
         ):
-            raise HarnessError(f"unmodelled os.open for writing on {path!r}")
+            self.gate("open", path, "fd")
+            fd = _real["os.open"](path, flags, mode)
+            self.fd_paths[fd] = os.path.abspath(os.fspath(path))
+            return fd
         if dir_fd is None:
             return _real["os.open"](path, flags, mode)
         return _real["os.open"](path, flags, mode, dir_fd=dir_fd)
+
+    def _os_write(self, fd, data):
+        path = self.fd_paths.get(fd)
+        if path is None:
+            return _real["os.write"](fd, data)
+        act = self.gate("write", path, len(data))
+        if act == "short" and len(data) > 1:
+            return _real["os.write"](fd, bytes(data[: max(1, len(data) // 2)]))
+        return _real["os.write"](fd, data)
+
+    def _os_fsync(self, fd):
+        if hasattr(fd, "fileno"):
+            fd = fd.fileno()
+        path = self.fd_paths.get(fd)
+        if path is None:
+            for raw in self.open_files:
+                if not raw.closed and raw.fileno() == fd:
+                    path = raw._simpath
+                    break
+        if path is not None:
+            self.gate("fsync", path, 0)
+        return _real["os.fsync"](fd)
+
+    def _os_close(self, fd):
+        self.fd_paths.pop(fd, None)
+        return _real["os.close"](fd)
 
     def _ordered(self, names, key):
         names = sorted(names)
@@ -466,6 +517,9 @@ class SimOS:
         os.link = self._link
         os.symlink = self._symlink
         os.open = self._os_open
+        os.write = self._os_write
+        os.fsync = self._os_fsync
+        os.close = self._os_close
         uuid.uuid4 = self._uuid4
         tempfile._get_candidate_names = self._candidate_names
         shutil._use_fd_functions = False
@@ -504,6 +558,9 @@ class SimOS:
         os.link = _real["os.link"]
         os.symlink = _real["os.symlink"]
         os.open = _real["os.open"]
+        os.write = _real["os.write"]
+        os.fsync = _real["os.fsync"]
+        os.close = _real["os.close"]
         uuid.uuid4 = _real["uuid.uuid4"]
         tempfile._get_candidate_names = _real["tempfile._get_candidate_names"]
         shutil._use_fd_functions = _real["shutil._use_fd_functions"]
@@ -548,6 +605,12 @@ class SimOS:
             except Exception:
                 pass
         self.open_files = []
+        for fd in list(self.fd_paths):
+            try:
+                _real["os.close"](fd)
+            except OSError:
+                pass
+        self.fd_paths = {}
 
     # -- after a kill -----------------------------------------------------------
     def check_no_leak(self):
@@ -556,10 +619,16 @@ class SimOS:
             return
         now = snapshot_tree(self.root)
         if now != self.kill_snapshot:
+            # SQLite's own files may change when the connection of the dead
+            # process is closed (an open transaction is rolled back, the journal
+            # removed): that is SQLite's crash recovery, which is trusted
             diff = sorted(
                 k for k in set(now) | set(self.kill_snapshot)
                 if now.get(k) != self.kill_snapshot.get(k)
+                and not k.endswith((".sqlitedb", ".sqlitedb-journal", ".sqlitedb-wal", ".sqlitedb-shm"))
             )
+            if not diff:
+                return
             raise HarnessError(
                 f"something wrote around the seams after kill at {self.kill_event}: {diff}"
             )
